@@ -274,6 +274,8 @@ func checkC04(c *Ctx) {
 	r.Rule("R04.4", "object bracketing: the member-list emitter is always called between an opening and a closing brace emitted by the same function in JSON mode (top level and nested groups), and a member separator is not written right after an opening brace")
 	r.Rule("R04.5", "framing: the only constant containing a line break that JSON mode can emit is the one End(true) writes")
 	r.Rule("R04.8", "value fidelity (necessary for 'decodes to what was logged'): in JSON mode every floating-point value is rendered by strconv with precision -1 and the bit size of its own static type, every integer in base 10, and every time VALUE with a constant layout that has nanosecond digits and a zone; the parameters are resolved to constants over all call chains")
+	r.Rule("R08.1", "(shared with C08) what a record says was logged by this call: nothing on the print path writes memory that outlives the call other than the pooled objects of this call")
+	r.Rule("R08.2", "(shared with C08) attribute lists that are sorted/compacted in place or appended to belong to this call, never to a logger, handler, group or caller")
 	r.Rule("R04.6", "fixed members: time, logger, level, msg, attributes, caller are produced in this order under the named key constants")
 	r.Rule("R04.7", "no pooled encoder field is read stale in JSON mode (engine E10): material formatted for a previous record cannot surface inside the object")
 	r.Assume("user-supplied marshallers and value stringers emit valid JSON (outside the property's domain)")
@@ -294,6 +296,7 @@ func checkC04(c *Ctx) {
 		c04Tokens(c, p, m, mr)
 		valueFidelity(c, p, m, mr, "R04.8")
 		escaperNoLoss(c, p, "R04.8")
+		c08Stores(c, p, m)
 		c04Brackets(c, p, m, mr)
 		newlineRule(c, p, mr, "R04.5", map[string]string{"PrintCtx.End": "the record terminator of End(true)", "PrintCtx.EndArray": "EndArray(newline) for user marshallers", "Entry.printImpl": "blank-line shortcut"})
 		fieldOrder(c, p, m, jsonMode, "R04.6", []string{"Begin", "printTimestamp", "printLoggerName", "printSeverity", "printMsg", "serializeAttrs", "printPC", "printRestLinesOfMsg", "End", "Bytes", "printOut"}, map[string]bool{"printPC": true, "printRestLinesOfMsg": true})
@@ -310,6 +313,21 @@ func c04Escaper(c *Ctx, p *Prog, m *Model, mr *ModeReach) {
 	for _, n := range []string{"appendQuotedWith", "appendEscapedRune", "appendQuotedRuneWith"} {
 		if fn := p.Func(p.Slog, n); fn != nil {
 			r.Check(!mr.Has(fn), "R04.1", "json-unreachable:"+n, p.FuncPos(fn), "the Go-syntax quoting routine is not reachable in JSON mode", "in JSON mode strings can be quoted by "+n+", whose escapes (\\a \\v \\x7f \\U0001f600) are not JSON: such a record cannot be decoded")
+		}
+	}
+	// ... nor strconv's own Go-syntax quoting
+	for _, fn := range mr.Funcs() {
+		fb := mr.Blocks[fn]
+		for _, cs := range callsIn(fn) {
+			if !fb[cs.Block()] {
+				continue
+			}
+			if cal := calleeOf(cs); cal != nil {
+				switch cal.String() {
+				case "strconv.Quote", "strconv.AppendQuote", "strconv.QuoteToASCII", "strconv.AppendQuoteToASCII", "strconv.QuoteToGraphic", "strconv.AppendQuoteToGraphic", "strconv.QuoteRune", "strconv.AppendQuoteRune":
+					r.Bad("R04.1", "json-goquote:"+shortName(fn), p.Pos(instrPos(cs)), "in JSON mode %s quotes a string with %s, whose escapes (\\a \\v \\x7f \\U0001f600) are not JSON: such a record cannot be decoded", shortName(fn), cal.String())
+				}
+			}
 		}
 	}
 	esc := p.Method(p.Slog, "PrintCtx", "appendEscapedJSONString")
